@@ -494,6 +494,31 @@ pub fn generators(level: usize) -> Vec<Program> {
             }
         }
     }
+    // larger counts (casts of the element count, f32 precision)
+    for (ty, c) in [(GenTy::F64, Container::Sim), (GenTy::F32, Container::Vec), (GenTy::I32, Container::Deque), (GenTy::I64, Container::Array1)] {
+        for n in [10usize, 33, 100, 1000] {
+            let (a, b) = if ty.is_float() { (Val::F(-1.5), Val::F(n as f64 * 0.25)) } else { (Val::I(-3), Val::I(n as i64 * 2 - 3)) };
+            out.push(Program::Gen(Gen { ty, kind: GenKind::Linspace { start: Some(a.clone()), end: b.clone(), n }, out: c }));
+            out.push(Program::Gen(Gen { ty, kind: GenKind::Linspace { start: Some(b), end: a, n }, out: c }));
+        }
+        let (a, b, steps): (Val, Val, Vec<Val>) = if ty.is_float() {
+            (Val::F(0.0), Val::F(100.0), vec![Val::F(0.1), Val::F(0.3), Val::F(0.7), Val::F(7.0), Val::F(-0.1)])
+        } else {
+            (Val::I(0), Val::I(1000), vec![Val::I(1), Val::I(7), Val::I(999), Val::I(1001), Val::I(-7)])
+        };
+        for s in steps {
+            let neg = s.as_f64() < 0.0;
+            let (x, y) = if neg { (b.clone(), a.clone()) } else { (a.clone(), b.clone()) };
+            out.push(Program::Gen(Gen { ty, kind: GenKind::Range { start: Some(x), end: y, step: Some(s) }, out: c }));
+        }
+    }
+    // full / empty with an element type that is Clone but not Copy
+    for c in containers {
+        for len in 0..=5 {
+            out.push(Program::Gen(Gen { ty: GenTy::Trk, kind: GenKind::Full { len, v: Val::I(7) }, out: c }));
+        }
+        out.push(Program::Gen(Gen { ty: GenTy::Trk, kind: GenKind::Empty, out: c }));
+    }
     // full / empty
     for ty in [GenTy::F64, GenTy::I32, GenTy::OptF64, GenTy::OptI32, GenTy::Usize] {
         for c in containers {
